@@ -7,14 +7,21 @@ PID = "C17"
 
 MANIFEST = dict(
     text="Machine-checked theorems (Coq 8.16.1) over an executable model of the frame codec (golib readMsg/Pack), the "
-         "schema-driven JSON object codec and the first-message dispatch: round trip, decoder accepts exactly the encoder's image, "
-         "allocation <= 10240 and no over-read on every input, registry bijective and wire schema stable (reflective over tables "
-         "regenerated from pkg/msg/msg.go on every run). The model is tied to the code by the translator (T1) and by a differential "
-         "run of real msg.WriteMsg/ReadMsg against the model on generated and adversarial inputs.",
-    note="Trusted: Coq kernel+VM; translator T1 (go/ast); harness transcription; encoding/json text layer is an oracle with the law "
-         "parse(render o)=Some o; golib framing lives in the module cache and is modelled by hand (Model/Frame.v), compared on every run. "
-         "The disconnect-without-affecting-other-sessions clause is proved for the dispatch function and exercised end-to-end by the system driver.",
-    technique="Coq proof (induction/reflection) + translator-regenerated tables + differential correspondence via vm_compute",
+         "schema-driven JSON object codec, the server's handling of the first bytes of a connection (listener mux, TLS sniff, "
+         "handleConnection's first-message switch) and the control channel's read loop: round trip at frame, object and message level "
+         "(one theorem per registered message type over records regenerated from pkg/msg/msg.go), decoder accepts exactly the encoder's "
+         "image, allocation <= 10240 and no over-read on every input, registry bijective and wire schema stable (reflective over tables "
+         "regenerated on every run), every unexpected or malformed first message leaves the session table unchanged and closes only its "
+         "connection, the read loop dispatches exactly the maximal prefix of well-formed frames and a decode error ends that session only. "
+         "The model is tied to the code by the translator (T1) and by differential runs: real msg.WriteMsg/ReadMsg against the model on "
+         "generated and adversarial inputs (also 200 000 cases through the extracted OCaml model in the thorough tier), and an in-process "
+         "frps fed first bytes / control-channel streams while a bystander session keeps exchanging heartbeats and carrying bytes.",
+    note="Trusted: Coq kernel+VM; OCaml extraction (ExtrOcamlBasic only) for the volume runs; translator T1 (go/ast); harness transcription; "
+         "encoding/json text layer is an oracle with the law parse(render o)=Some o; golib framing and listener mux live in the module cache "
+         "and are modelled by hand (Model/Frame.v, Model/FrameSys.v), compared on every run; TLS/websocket/yamux are libraries (a failing "
+         "handshake is 'closed, any bytes'); handlers behind accepted first messages are oracles; timing is observed in three classes. "
+         "Round trips hold for encodings within the 10 KiB bound; C17_oversize_message_rejected covers the rest.",
+    technique="Coq proof (induction/reflection) + translator-regenerated tables and records + differential correspondence via vm_compute and extraction",
     design="4/C17")
 
 
